@@ -4,6 +4,14 @@ import json, os, subprocess
 V = os.path.dirname(os.path.dirname(os.path.abspath(__file__)))
 
 CHECKS = {
+ "C01": dict(level="exploration", design="§3 C01",
+   text="Multi-process differential on the public API: 8 (quick) / 48 (thorough) fresh processes - each with its own hash seed, the run reports how many distinct base-phone table orders they had - evaluate the same ~120 k inputs chosen to hit every tie-break of the renderer (`[] > [±F]` on every k-th base and base+diacritic spelling, the same through `+` romanisers, harvested rules x harvested words, error inputs, printed traces); every batch is also run twice in a row, with the words reversed, and as one list vs word by word. Any input whose result differs across processes, calls or orders is a violation.",
+   note="hash seeds cannot be chosen, only sampled (distinct table orders observed are reported); thread-level concurrency is outside the property",
+   technique="multi-process / repeated-call / permutation differential (offline comparison of per-process result logs)"),
+ "C10": dict(level="exploration", design="§3 C10",
+   text="Staging differential on the public API: for 30 k (quick) / 1.5 M (thorough) sequences of 2-8 parsable rules x generated words (incl. americanist and alias letters, ASCII shorthands) and for the shipped Indo-European > Proto-Germanic pipeline (82 rules x 57 words), the single run is compared with the two-stage run at every split point with a renderable intermediate (~150 k split points quick) and with 3 random regroupings incl. empty groups; a failure is attributed (americanist input / C08 / C09 / other) so that root causes are not conflated.",
+   note="known finding KF-C10-1 (americanist output convention is per input word, lost by staging); intermediate words containing U+FFFD are skipped as the property says",
+   technique="metamorphic (staged vs single run, regrouping) runtime monitor with cause attribution"),
  "C09": dict(level="exploration", design="§3 C09",
    text="Round-trip monitor through the hooks: every spelling base + <= 1 diacritic (quick; <= 2 in thorough, ~370 k) that parses to one segment, and the segments one feature / one place node away from them, are rendered and - unless the rendering contains U+FFFD - parsed back and compared as bundles; 150 k (quick) / 5 M (thorough) random words assembled from those segments with every stress / tone / length pattern, equal segments across boundaries and twin pairs (X next to X+diacritic); and 60 k / 2 M outputs of run on generated rules are fed back through the empty rule list and must be fixed points.",
    note="known findings KF-C09-1/2: a stop or nasal next to a click consonant is ambiguous in the notation itself; structural comparison through the hook, public API for the fixed-point part",
